@@ -87,7 +87,7 @@ def _ensure_multiline_string_triple_quoted(value):
     # converting the value to a string
     s = str(value)
     # Escaping any double quote
-    s = s.replace('"', '\\"')
+    s = s.replace("\\", "\\\\").replace('"', '\\"')
     if "\n" in s:
         return '"""%s"""' % s
     else:
